@@ -105,6 +105,9 @@ type c24qEnv struct {
 	factPos    map[string]int
 	factByHash map[string]string
 
+	rawBallot   map[string]string // leveldb value (frame) of a ballot -> "<slot>:<A|B>" / "guard"
+	rawProposal map[string]int    // leveldb value (frame) of a proposal -> index in proposals
+
 	guardBallot   base.Ballot            // stored before a proposal search; must never be touched
 	guardProposal isaac.ProposalSignFact // stored before a ballot search; must never be touched
 }
@@ -113,6 +116,7 @@ func c24qNewEnv(t *testing.T) *c24qEnv {
 	env := &c24qEnv{
 		ballotBy: map[string]string{}, slotIndex: map[string]int{}, proposalBy: map[string]int{},
 		factHash: map[string]util.Hash{}, factPos: map[string]int{}, factByHash: map[string]string{},
+		rawBallot: map[string]string{}, rawProposal: map[string]int{},
 	}
 	env.enc = jsonenc.NewEncoder()
 	env.encs = encoder.NewEncoders(env.enc, env.enc)
@@ -272,6 +276,36 @@ func c24qNewEnv(t *testing.T) *c24qEnv {
 	env.guardBallot = mkballot(base.NewStagePoint(base.RawPoint(0, 0), base.StageACCEPT), false, "guard")
 	env.guardProposal = sign(isaac.NewProposalFact(base.RawPoint(0, 0), p2, nil, nil))
 
+	// ---- the exact leveldb value of every ballot / proposal (the pool stores EncodeFrame(enc, nil, v)):
+	// reading the state back needs no decoding; an unknown value is decoded and judged
+	frame := func(v any) string {
+		_, b, err := EncodeFrame(env.enc, nil, v)
+		if err != nil {
+			t.Fatal(err)
+		}
+
+		_, b2, _ := EncodeFrame(env.enc, nil, v)
+		if !bytes.Equal(b, b2) {
+			t.Fatal("harness: encoding is not deterministic")
+		}
+
+		return string(b)
+	}
+
+	for _, sl := range env.slots {
+		for vi, v := range []string{"A", "B"} {
+			env.rawBallot[frame(sl.ballots[vi])] = sl.name + ":" + v
+		}
+	}
+
+	for i, p := range env.proposals {
+		env.rawProposal[frame(p.pr)] = i
+	}
+
+	if len(env.rawBallot) != 2*len(env.slots) || len(env.rawProposal) != len(env.proposals) {
+		t.Fatal("harness: stored encodings collide")
+	}
+
 	return env
 }
 
@@ -324,20 +358,24 @@ func (env *c24qEnv) realBallots(db *TempPool, withGuard bool) (map[string]string
 	var vios []c24qVio
 
 	if err := pst.Iter(leveldbutil.BytesPrefix(leveldbKeyPrefixBallot[:]), func(k, b []byte) (bool, error) {
-		var bl base.Ballot
-		if err := ReadDecodeFrame(env.encs, b, &bl); err != nil {
-			return false, err
+		name, ok := env.rawBallot[string(b)]
+		if !ok {
+			var bl base.Ballot
+			if err := ReadDecodeFrame(env.encs, b, &bl); err != nil {
+				return false, err
+			}
+
+			id := c24qIdent(bl.SignFact())
+
+			if withGuard && id == c24qIdent(env.guardBallot.SignFact()) {
+				got["guard"] = "guard"
+
+				return true, nil
+			}
+
+			name, ok = env.ballotBy[id]
 		}
 
-		id := c24qIdent(bl.SignFact())
-
-		if withGuard && id == c24qIdent(env.guardBallot.SignFact()) {
-			got["guard"] = "guard"
-
-			return true, nil
-		}
-
-		name, ok := env.ballotBy[id]
 		if !ok {
 			vios = append(vios, c24qVio{map[string]any{"kind": "ballot-record-changed"}, "a stored ballot record is none of the ballots ever given to SetBallot"})
 
@@ -535,12 +573,16 @@ func (env *c24qEnv) realProposals(db *TempPool) (c24qRealProposals, []c24qVio) {
 	var vios []c24qVio
 
 	if err := pst.Iter(leveldbutil.BytesPrefix(leveldbKeyPrefixProposal[:]), func(k, b []byte) (bool, error) {
-		var pr base.ProposalSignFact
-		if err := ReadDecodeFrame(env.encs, b, &pr); err != nil {
-			return false, err
+		i, ok := env.rawProposal[string(b)]
+		if !ok {
+			var pr base.ProposalSignFact
+			if err := ReadDecodeFrame(env.encs, b, &pr); err != nil {
+				return false, err
+			}
+
+			i, ok = env.proposalBy[c24qIdent(pr)]
 		}
 
-		i, ok := env.proposalBy[c24qIdent(pr)]
 		if !ok {
 			vios = append(vios, c24qVio{map[string]any{"kind": "proposal-record-changed"}, "a stored proposal record is none of the proposals ever given to SetProposal"})
 
@@ -997,8 +1039,8 @@ func TestVerifC24(t *testing.T) {
 	type cfg struct{ deep, depth int }
 
 	cfgs := vlib.Pick(r,
-		[]cfg{{3, 4}, {4, 4}},
-		[]cfg{{3, 6}, {4, 6}, {1, 5}, {2, 5}, {5, 5}})
+		[]cfg{{3, 4}, {4, 3}},
+		[]cfg{{3, 6}, {4, 5}, {1, 4}, {2, 4}, {5, 5}})
 
 	var cfgtxt []string
 	for _, c := range cfgs {
